@@ -47,8 +47,8 @@ var plans = map[string][]run{
 		{Name: "purego", Tags: []string{"purego"}},
 	},
 	"C20": {
-		{Name: "sched", Instrument: "sched", Shards: 16, OneCPU: true},
-		{Name: "race", Race: true},
+		{Name: "sched", Tags: []string{"verifsched"}, Instrument: "sched", Shards: 16, OneCPU: true},
+		{Name: "race", Tags: []string{"verifrace"}, Race: true},
 	},
 	"C05": {
 		{Name: "asm"},
@@ -223,81 +223,88 @@ func main() {
 	var partials []mc.Partial
 	var pmu sync.Mutex
 	infra := false
+	var allRuns sync.WaitGroup
 	for i, r := range runs {
 		if bs[i].bin == "" {
 			continue
 		}
-		n := r.Shards
-		if n < 1 {
-			n = 1
-		}
-		var rw sync.WaitGroup
-		for s := 0; s < n; s++ {
-			rw.Add(1)
-			go func(s int) {
-				defer rw.Done()
-				ppath := filepath.Join(work, fmt.Sprintf("%s-%d.partial.json", r.Name, s))
-				var cmd *exec.Cmd
-				if replay != "" {
-					cmd = exec.Command(bs[i].bin, "-replay", replay)
-				} else {
-					cmd = exec.Command(bs[i].bin)
-				}
-				cmd.Dir = verif
-				env := append(os.Environ(),
-					"VERIF_TIER="+tier, "VERIF_SEED="+seed, "VERIF_PARTIAL="+ppath,
-					fmt.Sprintf("VERIF_SHARD=%d/%d", s, n), "VERIF_RUN="+r.Name,
-					"VERIF_SKIPPED_HOOKS="+strings.Join(bs[i].skipped, ","),
-					"VERIF_WORK="+work,
-				)
-				if r.OneCPU {
-					env = append(env, "GOMAXPROCS=1")
-				}
-				if r.Race {
-					env = append(env, "GORACE=halt_on_error=0 log_path="+filepath.Join(work, "race.log"))
-				}
-				cmd.Env = env
-				var errb bytes.Buffer
-				cmd.Stdout = os.Stderr
-				cmd.Stderr = &errb
-				err := cmd.Run()
-				if replay != "" {
-					os.Stderr.Write(errb.Bytes())
-					return
-				}
-				b, rerr := os.ReadFile(ppath)
-				if err != nil || rerr != nil {
-					tail := errb.String()
-					if len(tail) > 6000 {
-						tail = tail[len(tail)-6000:]
+		i, r := i, r
+		allRuns.Add(1)
+		go func() {
+			defer allRuns.Done()
+			n := r.Shards
+			if n < 1 {
+				n = 1
+			}
+			var rw sync.WaitGroup
+			for s := 0; s < n; s++ {
+				rw.Add(1)
+				go func(s int) {
+					defer rw.Done()
+					ppath := filepath.Join(work, fmt.Sprintf("%s-%d.partial.json", r.Name, s))
+					var cmd *exec.Cmd
+					if replay != "" {
+						cmd = exec.Command(bs[i].bin, "-replay", replay)
+					} else {
+						cmd = exec.Command(bs[i].bin)
 					}
-					fmt.Fprintf(os.Stderr, "vdriver: %s/%s shard %d did not complete (%v)\n%s\n", id, r.Name, s, err, tail)
-					pmu.Lock()
-					infra = true
-					pmu.Unlock()
-					return
-				}
-				if errb.Len() > 0 {
-					t := errb.String()
-					if len(t) > 3000 {
-						t = t[len(t)-3000:]
+					cmd.Dir = verif
+					env := append(os.Environ(),
+						"VERIF_TIER="+tier, "VERIF_SEED="+seed, "VERIF_PARTIAL="+ppath,
+						fmt.Sprintf("VERIF_SHARD=%d/%d", s, n), "VERIF_RUN="+r.Name,
+						"VERIF_SKIPPED_HOOKS="+strings.Join(bs[i].skipped, ","),
+						"VERIF_WORK="+work,
+					)
+					if r.OneCPU {
+						env = append(env, "GOMAXPROCS=1")
 					}
-					os.Stderr.WriteString(t)
-				}
-				var p mc.Partial
-				if json.Unmarshal(b, &p) != nil {
+					if r.Race {
+						env = append(env, "GORACE=halt_on_error=0 exitcode=0 log_path="+filepath.Join(work, "race.log"))
+					}
+					cmd.Env = env
+					var errb bytes.Buffer
+					cmd.Stdout = os.Stderr
+					cmd.Stderr = &errb
+					err := cmd.Run()
+					if replay != "" {
+						os.Stderr.Write(errb.Bytes())
+						return
+					}
+					b, rerr := os.ReadFile(ppath)
+					if err != nil || rerr != nil {
+						tail := errb.String()
+						if len(tail) > 6000 {
+							tail = tail[len(tail)-6000:]
+						}
+						fmt.Fprintf(os.Stderr, "vdriver: %s/%s shard %d did not complete (%v)\n%s\n", id, r.Name, s, err, tail)
+						pmu.Lock()
+						infra = true
+						pmu.Unlock()
+						return
+					}
+					if errb.Len() > 0 {
+						t := errb.String()
+						if len(t) > 3000 {
+							t = t[len(t)-3000:]
+						}
+						os.Stderr.WriteString(t)
+					}
+					var p mc.Partial
+					if json.Unmarshal(b, &p) != nil {
+						pmu.Lock()
+						infra = true
+						pmu.Unlock()
+						return
+					}
 					pmu.Lock()
-					infra = true
+					partials = append(partials, p)
 					pmu.Unlock()
-					return
-				}
-				pmu.Lock()
-				partials = append(partials, p)
-				pmu.Unlock()
-			}(s)
-		}
-		rw.Wait()
+				}(s)
+			}
+			rw.Wait()
+		}()
 	}
+	allRuns.Wait()
 	if replay != "" {
 		return
 	}
